@@ -158,6 +158,10 @@ def run(prop, seed, budget, ctx):
     gf, gn, gd, gh = inherit_alias.run_part(seed, budget)
     failures += gf; evaluations += gn; distinct |= gd
     for k_, v_ in gh.items(): hist[k_] += v_
+    import objmodel
+    gf, gn, gd, gh = objmodel.run_part("C11", seed, budget)
+    failures += gf; evaluations += gn; distinct |= gd
+    for k_, v_ in gh.items(): hist[k_] += v_
     return {"evaluations": evaluations, "distinct_nontrivial": len(distinct),
             "rule": "field validators inherited by subclasses that rename the field or have another class aliaser: error located at the consumed key; GraphQL operation arguments (queries, mutations, subscriptions with / without resolver; alias by parameters_metadata / Annotated) x aliasers: published name = consumed name; "
                     "generated dataclasses (1-4 fields from a pool with snake_case, camelCase, a keyword-like name, a $-prefixed alias; override=False; "
